@@ -18,6 +18,7 @@ import (
 	"fmt"
 	"go/token"
 	"go/types"
+	"strings"
 	"sync"
 
 	"golang.org/x/tools/go/ssa"
@@ -91,7 +92,172 @@ func (p *Program) keepsCheck(callee *ssa.Function, name string) string {
 	return res
 }
 
-func (p *Program) keepsCheckUncached(callee *ssa.Function, name string) string {
+func fieldNameOf(fa *ssa.FieldAddr) string {
+	stt, ok := fa.X.Type().Underlying().(*types.Pointer).Elem().Underlying().(*types.Struct)
+	if !ok {
+		return ""
+	}
+	return stt.Field(fa.Field).Name()
+}
+
+// topFieldOfT: for an address inside a T object, the name of T's own field it lies in.
+func topFieldOfT(v ssa.Value, name string) string {
+	for {
+		fa, ok := v.(*ssa.FieldAddr)
+		if !ok {
+			return ""
+		}
+		if namedStructPtr(fa.X.Type(), name) {
+			return fieldNameOf(fa)
+		}
+		v = fa.X
+	}
+}
+
+// keepsMapCheck: no function reachable from callee updates or deletes from a map of the named type.
+func (p *Program) keepsMapCheck(callee *ssa.Function, tname string) string {
+	taken := p.addressTaken()
+	seen := map[*ssa.Function]bool{}
+	work := []*ssa.Function{callee}
+	addAllTaken := false
+	isT := func(t types.Type) bool {
+		n, ok := t.(*types.Named)
+		return ok && n.Obj().Name() == tname
+	}
+	for len(work) > 0 {
+		fn := work[len(work)-1]
+		work = work[:len(work)-1]
+		if seen[fn] || fn == nil {
+			continue
+		}
+		seen[fn] = true
+		if !p.inScope(fn) {
+			continue
+		}
+		for _, b := range fn.Blocks {
+			for _, in := range b.Instrs {
+				if mu, ok := in.(*ssa.MapUpdate); ok && isT(mu.Map.Type()) {
+					return fmt.Sprintf("%s updates a %s (%s)", fn.String(), tname, p.posStr(mu.Pos()))
+				}
+				if mc, ok := in.(*ssa.MakeClosure); ok {
+					work = append(work, mc.Fn.(*ssa.Function))
+				}
+				for _, op := range in.Operands(nil) {
+					if op != nil && *op != nil {
+						if f, ok := (*op).(*ssa.Function); ok {
+							work = append(work, f)
+						}
+					}
+				}
+				if c, ok := in.(ssa.CallInstruction); ok {
+					cc := c.Common()
+					if bi, isB := cc.Value.(*ssa.Builtin); isB {
+						if bi.Name() == "delete" && isT(cc.Args[0].Type()) {
+							return fmt.Sprintf("%s deletes from a %s (%s)", fn.String(), tname, p.posStr(in.Pos()))
+						}
+						continue
+					}
+					if cc.StaticCallee() == nil && !addAllTaken {
+						addAllTaken = true
+						for f := range taken {
+							work = append(work, f)
+						}
+					}
+				}
+			}
+		}
+	}
+	return ""
+}
+
+// keepsElemsCheck: no function reachable from callee writes an element of a slice/array whose element type is
+// the named type (store through an index address, append, copy).
+func (p *Program) keepsElemsCheck(callee *ssa.Function, tname string) string {
+	taken := p.addressTaken()
+	seen := map[*ssa.Function]bool{}
+	work := []*ssa.Function{callee}
+	addAllTaken := false
+	isT := func(t types.Type) bool {
+		if t == nil {
+			return false
+		}
+		if pt, ok := t.(*types.Pointer); ok && strings.HasPrefix(tname, "*") {
+			n, ok := pt.Elem().(*types.Named)
+			return ok && n.Obj().Name() == tname[1:]
+		}
+		n, ok := t.(*types.Named)
+		return ok && n.Obj().Name() == tname
+	}
+	for len(work) > 0 {
+		fn := work[len(work)-1]
+		work = work[:len(work)-1]
+		if seen[fn] || fn == nil {
+			continue
+		}
+		seen[fn] = true
+		if !p.inScope(fn) {
+			continue
+		}
+		for _, b := range fn.Blocks {
+			for _, in := range b.Instrs {
+				if st, ok := in.(*ssa.Store); ok {
+					v := st.Addr
+					for {
+						if fa, ok := v.(*ssa.FieldAddr); ok {
+							v = fa.X
+							continue
+						}
+						break
+					}
+					if ia, ok := v.(*ssa.IndexAddr); ok && isT(elemTypeOf(ia.X.Type())) {
+						return fmt.Sprintf("%s stores into an element of a []%s (%s)", fn.String(), tname, p.posStr(st.Pos()))
+					}
+				}
+				if mc, ok := in.(*ssa.MakeClosure); ok {
+					work = append(work, mc.Fn.(*ssa.Function))
+				}
+				for _, op := range in.Operands(nil) {
+					if op != nil && *op != nil {
+						if f, ok := (*op).(*ssa.Function); ok {
+							work = append(work, f)
+						}
+					}
+				}
+				if c, ok := in.(ssa.CallInstruction); ok {
+					cc := c.Common()
+					if bi, isB := cc.Value.(*ssa.Builtin); isB {
+						if (bi.Name() == "append" || bi.Name() == "copy") && isT(elemTypeOf(cc.Args[0].Type())) {
+							return fmt.Sprintf("%s appends/copies into a []%s (%s)", fn.String(), tname, p.posStr(in.Pos()))
+						}
+						continue
+					}
+					if cc.StaticCallee() == nil && !addAllTaken {
+						addAllTaken = true
+						for f := range taken {
+							work = append(work, f)
+						}
+					}
+				}
+			}
+		}
+	}
+	return ""
+}
+
+func (p *Program) keepsCheckUncached(callee *ssa.Function, spec string) string {
+	if strings.HasPrefix(spec, "map:") {
+		return p.keepsMapCheck(callee, strings.TrimPrefix(spec, "map:"))
+	}
+	if strings.HasPrefix(spec, "elems:") {
+		return p.keepsElemsCheck(callee, strings.TrimPrefix(spec, "elems:"))
+	}
+	name, field := spec, ""
+	if i := strings.Index(spec, "."); i >= 0 {
+		name, field = spec[:i], spec[i+1:]
+	}
+	relevant := func(addr ssa.Value) bool {
+		return field == "" || topFieldOfT(addr, name) == field
+	}
 	// (1) no field address of T escapes anywhere
 	for _, fn := range p.allFuncsIncludingSynthetic() {
 		if !p.inScope(fn) {
@@ -103,7 +269,7 @@ func (p *Program) keepsCheckUncached(callee *ssa.Function, name string) string {
 				if !ok {
 					continue
 				}
-				if is, _ := fieldOfT(fa, name); !is {
+				if is, _ := fieldOfT(fa, name); !is || !relevant(fa) {
 					continue
 				}
 				for _, r := range *fa.Referrers() {
@@ -142,7 +308,7 @@ func (p *Program) keepsCheckUncached(callee *ssa.Function, name string) string {
 		for _, b := range fn.Blocks {
 			for _, in := range b.Instrs {
 				if st, ok := in.(*ssa.Store); ok {
-					if is, base := fieldOfT(st.Addr, name); is {
+					if is, base := fieldOfT(st.Addr, name); is && relevant(st.Addr) {
 						if _, fresh := base.(*ssa.Alloc); !fresh {
 							return fmt.Sprintf("%s stores into a field of %s (%s)", fn.String(), name, p.posStr(st.Pos()))
 						}
